@@ -40,6 +40,8 @@ EXC_CHOICES = [
     "OSError",
     "RuntimeError",
     "KeyError",
+    "EmptyMessage",
+    "Multiline",
 ]
 SITES = ["objective", "group", "fill_item", "matrix", "residual", "line"]
 
@@ -162,7 +164,7 @@ def generate(rng: random.Random, tier: str) -> dict:
         "invalid": invalid,
         "invalid_at": rng.choice(["before", "after"]),
         # what the caller's sys.stdout is: a plain stream, or a glotaran TeeContext the caller has entered itself
-        "caller_stdout": rng.choice(["plain", "plain", "tee"]),
+        "caller_stdout": rng.choice(["plain", "plain", "tee", "tee", "writeonly", "flush_raises"]),
     }
 
 
@@ -319,6 +321,10 @@ class Run:
             sys.stdout = sink
             sentinel = TeeContext()  # remembers `sink` as the stream below it
             sentinel.getvalue = sentinel.read
+        elif self.plan.get("caller_stdout") == "writeonly":
+            sentinel = S.WriteOnlyStdout()
+        elif self.plan.get("caller_stdout") == "flush_raises":
+            sentinel = S.FlushRaisesStdout()
         else:
             sentinel = sink
         sys.stdout = sentinel
@@ -363,6 +369,30 @@ class Run:
             # -------- baseline ------------------------------------------
             self.seams.driver = driver() if driver else None
             base, exc, ok, _, _ = self.call_optimize(scheme, False, True, None)
+            if not ok:
+                rec.violate(
+                    "C15/stdout-not-restored",
+                    "stdout",
+                    f"fault-free optimize() left sys.stdout replaced (caller's stdout kind: {plan.get('caller_stdout', 'plain')}, "
+                    f"outcome: {type(exc).__name__ if exc else 'Result'}: {exc})",
+                )
+                return rec.outcome("stdout", True)
+            if exc is not None and plan.get("caller_stdout", "plain") != "plain":
+                # does the same scheme optimise with an ordinary stream?  Then the failure is about the stream.
+                kind = plan["caller_stdout"]
+                plan["caller_stdout"] = "plain"
+                try:
+                    self.seams.driver = driver() if driver else None
+                    _, exc2, _, _, _ = self.call_optimize(workloads.build_scheme(spec), False, True, None)
+                finally:
+                    plan["caller_stdout"] = kind
+                if exc2 is None:
+                    rec.violate(
+                        "C15/stdout-dependent-failure",
+                        "stdout",
+                        f"fault-free optimize() raises {type(exc).__name__}: {exc} only because the caller's sys.stdout is a {kind} object",
+                    )
+                    return rec.outcome("stdout", True)
             if exc is not None:
                 rec.discarded = f"baseline: {type(exc).__name__}: {str(exc)[:80]}"
                 return rec.outcome("discard", False)
